@@ -8,7 +8,7 @@ from worlds import master, worker as W
 ID = "C04"
 LEVEL = "exploration"
 DESIGN_REF = "DESIGN.md §4 C04, Appendix C"
-QUICK_RUNS = 12000
+QUICK_RUNS = 16000
 THOROUGH_MIN_RUNS = 60000
 BATCH = 100
 CASE_WALL_S = 60.0
